@@ -69,12 +69,16 @@ def random_op(rng, spec):
         if a is None and b is None:
             a = max(0, tpt())
         a = None if a is None else max(0, a); b = None if b is None else max(0, b)
-        return ['fs', a, b, rng.choice([None, None, 'i', 'a', 'r']), rng.random() < 0.3]
+        return ['fs', a, b, rng.choice([None, None, 'i', 'a', 'r']), rng.choice(['ff', 'ff', 'tt', 'ft', 'tf'])]
     if k == 'fr':
-        absolute = rng.random() < 0.5
+        # every way the API lets a TimeRange be built: absolute given or inferred, each end a float, a Timestamp or an
+        # invalid Timestamp
+        rs, re_ = rng.choice(['f', 'f', 't', 'x']), rng.choice(['f', 'f', 't', 'x'])
+        given = rng.choice([True, False, None, None])
+        absolute = given if given is not None else (rs in 'tx' or re_ in 'tx')
         base = 0 if absolute else 8 * (ts[0] // 8)
         a, b = rng.choice([None, max(0, tpt() - base)]), rng.choice([None, max(0, tpt() - base)])
-        return ['fr', a, b, absolute, None if absolute or rng.random() < 0.7 else rng.choice([ts[0], ts[0] - ts[0] % 8, ts[0] + 3])]
+        return ['fr', a, b, given, None if absolute or rng.random() < 0.7 else rng.choice([ts[0], ts[0] - ts[0] % 8, ts[0] + 3]), rs, re_]
     if k == 'fi':
         iv = lambda: rng.choice([None, rng.randint(-n - 1, n + 1)])
         return ['fi', iv(), iv(), rng.choice([None, None, 1, 2, 3, 0])]
@@ -90,7 +94,8 @@ def op_tokens(op):
     if k == 'fs':
         return 'fs %s %s %s' % (K.zo(op[1]), K.zo(op[2]), op[3] or '-')
     if k == 'fr':
-        r = K.normalise_range({'start': op[1], 'end': op[2], 'abs': op[3], 't0': op[4]})
+        r = K.normalise_range({'start': op[1], 'end': op[2], 'abs': op[3], 't0': op[4],
+                               'rs': op[5] if len(op) > 5 else 'f', 're': op[6] if len(op) > 6 else 'f'})
         return 'fr %s %s %s %s' % (K.zo(r['start']), K.zo(r['end']), '1' if r['abs'] else '0', K.zo(r['t0']))
     if k == 'fi':
         return 'fi %s %s %s' % (K.zo(op[1]), K.zo(op[2]), K.zo(op[3]))
